@@ -83,3 +83,12 @@ Definition late := idx (fun c : case => match c with (ev, d, lo, hi, el, ctl) =>
         rule="real Tick/Every commands at 8 (quick) or 16 (thorough) phases of the period x durations x random pre-run delay; distinct = (kind, d, phase octant, pre-run>0)",
         trusted_extra=["Go runtime timers and clocks (time.NewTimer fires no earlier than asked; hypothesis runtime_timer_ok of C20_*_partial)",
                        "clock-reading tolerance %d ns in the real-run not-early check" % TOL_NS])
+
+
+def replay(res, path):
+    """Timer runs are not replayable bit for bit (they depend on the clock); the
+    replay re-runs the same tier and seed and prints the recorded observation."""
+    import json
+    d = json.load(open(path))
+    print(json.dumps(d, indent=1)[:2000])
+    return run(res, d.get("tier", "quick"), d.get("seed", 1))
